@@ -7,12 +7,14 @@ Local Open Scope N_scope.
 Theorem success_sound :
   forall (E : Type) (I : iface E) (ce : bool) (fuel : nat) (p : cmdpkt) (cls : N) (s : mbs E) (v : list N) (s1 : mbs E),
   cmd_data_in E I ce fuel p cls s = (ROk (AVBytes v), s1) ->
-  exists b e0 rs e1 its e_end rsf,
+  exists b e0 rs e1 its e_end rsf s0,
     pkt_bytes p = ROk b /\ i_write_command I b (mb_env E s) = (ROk tt, e0) /\ i_read I e0 = (ROk (RxResp rs), e1) /\
     r_status rs = SC_SUCCESS /\ r_cls rs = cls /\
-    ireads I e1 e_end its /\ v = firstnN (r_second rs) (datas its) /\ rd_end E I (pkt_tag p) e_end its rsf s1 /\
+    ireads I e1 e_end its /\ v = firstnN (r_second rs) (datas its) /\ rd_end E I (pkt_tag p) e_end its rsf s0 /\
+    mb_env E s1 = mb_env E s0 /\
     (mb_status E s1 = SC_SUCCESS ->
-       e_end = mb_env E s1 /\ last_resp its = Some rsf /\ r_cls rsf = 1 /\ r_second rsf = pkt_tag p /\ r_status rsf = SC_SUCCESS) /\
-    (ce = true -> mb_status E s1 = SC_SUCCESS /\ nlen v = r_second rs).
+       e_end = mb_env E s1 /\ last_resp its = Some rsf /\ r_cls rsf = 1 /\ r_second rsf = pkt_tag p /\ r_status rsf = SC_SUCCESS /\
+       nlen v = r_second rs) /\
+    (ce = true -> mb_status E s1 = SC_SUCCESS).
 Proof. exact cmd_data_in_sound. Qed.
 Print Assumptions success_sound.
